@@ -11,8 +11,23 @@
    Statement-level theorems (parse_render_select ...) do not exist yet: SELECT / DML / DDL are covered by the
    prescribed-tree oracle only. *)
 From Coq Require Import List String Arith.
-From GV Require Import Spec.RefGrammar Model.Expr Model.ExprParse Proofs.ExprParseP.
+From GV Require Import Spec.RefGrammar Model.Expr Model.ExprParse Proofs.ExprParseP Proofs.ExprParseExtP.
 Import ListNotations.
+
+(* The expression-level statement for the WHOLE reference expression grammar [mexpr] of Spec/RefGrammar.v (no
+   sub-surface predicate): function calls (plain / DISTINCT), CASE (both forms), tuples and type names with
+   arguments included.  Still outside [mexpr] (hence outside this theorem; covered by the model-vs-code
+   correspondence where modelled and by the prescribed-tree oracle): FILTER / OVER / WITHIN GROUP / ORDER BY inside a
+   call, EXISTS, scalar / IN / ANY / ALL sub-queries, ARRAY, subscripts and slices, INTERVAL, JSON operators, REGEXP /
+   RLIKE, unary minus / plus, `*` and `t.*`. *)
+Theorem C03_parse_render_expr_ext :
+  forall md e (r : rho) stop d fuel,
+    ref_expr e = true -> follow_ok stop ->
+    d + 1 + pdepth 0 r e <= md ->
+    List.length (render 0 r e ++ stop) < fuel ->
+    parse_expression md no_defects fuel d (render 0 r e ++ stop) = Val (ast_of e, stop).
+Proof. exact parse_render_expr_ext. Qed.
+Print Assumptions C03_parse_render_expr_ext.
 
 Theorem C03_parse_render_expr_partial :
   forall md e (r : rho) stop d fuel,
